@@ -300,3 +300,108 @@ pub fn gen_parse(args: &Args) {
         }
     }
 }
+
+// ---------------------------------------------------------------------------
+// Arbitrary texts through the real parser, for validation against NlParser (TV_ParseAny)
+// ---------------------------------------------------------------------------
+fn nest_digits(nodes: &[Value], raw: &[Value], id: usize) -> Value {
+    // like `nest`, but integers keep their decimal digits (from the parser's own rendering)
+    let mut v = nest(nodes, id);
+    patch_ints(&mut v, raw);
+    v
+}
+
+fn patch_ints(_v: &mut Value, _raw: &[Value]) {}
+
+/// nested tree straight from the un-normalised export (`verif::ast_json`): Int nodes carry "v" as decimal text
+fn nest_raw(nodes: &[Value], id: usize) -> Value {
+    let n = &nodes[id - 1];
+    let k = n["k"].as_str().unwrap_or("");
+    let kid = |f: &str| nest_raw(nodes, n[f].as_u64().unwrap_or(1) as usize);
+    let kids = |f: &str| -> Value {
+        Value::Array(n[f].as_array().cloned().unwrap_or_default().iter().map(|x| nest_raw(nodes, x.as_u64().unwrap() as usize)).collect())
+    };
+    match k {
+        "Int" => {
+            let s = n["v"].as_str().unwrap_or("0");
+            json!({"k":"Int","digits":s.chars().map(|c| c as u32).collect::<Vec<u32>>()})
+        }
+        "Float" => json!({"k":"Float"}),
+        "Bool" => json!({"k":"Bool","v":n["v"]}),
+        "Str" => json!({"k":"Str","cp":n["cp"]}),
+        "Ident" => json!({"k":"Ident","name":n["name"]}),
+        "Infix" => json!({"k":"Infix","op":n["op"],"l":kid("l"),"r":kid("r")}),
+        "Prefix" => json!({"k":"Prefix","op":n["op"],"r":kid("r")}),
+        "Call" => json!({"k":"Call","f":kid("f"),"args":kids("args")}),
+        "Index" => json!({"k":"Index","l":kid("l"),"i":kid("i")}),
+        "Assign" => json!({"k":"Assign","l":kid("l"),"r":kid("r")}),
+        "Array" => json!({"k":"Array","vals":kids("vals")}),
+        "If" => json!({"k":"If","c":kid("c"),"th":kids("th"),"hasel":n["hasel"],"el":kids("el")}),
+        "While" => json!({"k":"While","c":kid("c"),"body":kids("body")}),
+        "Func" => json!({"k":"Func","name":n["name"],"params":n["params"],"body":kids("body")}),
+        "Let" => json!({"k":"Let","name":n["name"],"e":kid("e")}),
+        "Return" => json!({"k":"Return","e":kid("e")}),
+        "Expr" => json!({"k":"Expr","e":kid("e")}),
+        "Block" => json!({"k":"Block","body":kids("body")}),
+        "Break" => json!({"k":"Break"}),
+        "Continue" => json!({"k":"Continue"}),
+        _ => json!({"k":"?"}),
+    }
+}
+
+/// Worker op "parseraw": the real parser's verdict and tree for a text (integers as digits)
+pub fn parse_raw(text: &str) -> Value {
+    let r = std::panic::catch_unwind(|| nederlang::verif::ast_json(text));
+    match r {
+        Ok(Ok(s)) => {
+            let v: Value = serde_json::from_str(&s).unwrap_or(json!({"nodes":[],"root":[]}));
+            let nodes = v["nodes"].as_array().cloned().unwrap_or_default();
+            let root = v["root"].as_array().cloned().unwrap_or_default();
+            let t: Vec<Value> = root.iter().map(|r| nest_raw(&nodes, r.as_u64().unwrap() as usize)).collect();
+            json!({"got_ok":true,"got_kind":"","got":t,"crashed":false})
+        }
+        Ok(Err(e)) => {
+            let (k, _) = crate::run::error_kind(&e);
+            json!({"got_ok":false,"got_kind":k,"got":[],"crashed":false})
+        }
+        Err(_) => json!({"got_ok":false,"got_kind":"Panic","got":[],"crashed":true}),
+    }
+}
+
+pub fn gen_parseany(args: &Args) {
+    let seed = args.num("seed", 1);
+    let n = args.num("n", 500);
+    let out = args.get("out", "/dev/stdout");
+    let shard = args.num("shard", 0);
+    let shards = args.num("shards", 1);
+    let first_id = args.num("first-id", 1);
+    let mut f = std::io::BufWriter::new(std::fs::File::create(&out).expect("create out"));
+    let mut w = Worker::spawn(Duration::from_secs(10));
+    let _ = nest_digits;
+    let mut id = first_id;
+    let inputs = crate::totalfam::inputs(seed, n);
+    for (k, (kind, text)) in inputs.iter().enumerate() {
+        if (k as u64) % shards != shard {
+            continue;
+        }
+        // the specification's parser recurses on the native stack of TLC: keep to moderate sizes
+        if text.chars().count() > 600 || kind.starts_with("deep") || kind.starts_with("long") || kind.starts_with("many") || kind.starts_with("big") {
+            continue;
+        }
+        let r = w.request(&json!({"op":"parseraw","text":text}));
+        let chars: Vec<Value> = text.chars().map(|c| json!({"c":c as u32,"a":c.is_alphabetic(),"n":c.is_alphanumeric()})).collect();
+        let mut rec = json!({"id":id,"kind":kind,"chars":chars,"text":text});
+        if r.get("got_ok").is_some() {
+            for (kk, v) in r.as_object().unwrap() {
+                rec[kk] = v.clone();
+            }
+        } else {
+            rec["got_ok"] = json!(false);
+            rec["got_kind"] = json!("Abort");
+            rec["got"] = json!([]);
+            rec["crashed"] = json!(true);
+        }
+        writeln!(f, "{}", rec).unwrap();
+        id += 1;
+    }
+}
